@@ -1151,7 +1151,13 @@ def gen_interp(src):
                       'SlacProps/C04Source.lean proves that `evalT` of SlacModel/Interp.lean (result AND event trace) is this function.', 'SlacModel.SrcPrelude', 'SrcInterp')
             + 'open Slac.SrcPrelude\n\n' + mutual([d] + c.aux) + '\nend Slac.Generated.SrcInterp\n')
 
-TARGETS = (('SrcInterp', gen_interp), ('SrcValidate', gen_validate), ('SrcOptimizer', gen_optimizer), ('SrcEnv', gen_env), ('SrcOrder', gen_order))
+def gen_parser(src):
+    # src/compiler.rs (`impl Compiler`, the Pratt parser): tools/rs2lean_parser.py, a state-monad translation of the `&mut self` methods
+    from rs2lean_parser import gen_parser as g
+    return g(src)
+
+TARGETS = (('SrcInterp', gen_interp), ('SrcValidate', gen_validate), ('SrcOptimizer', gen_optimizer), ('SrcEnv', gen_env), ('SrcOrder', gen_order),
+           ('SrcParser', gen_parser))
 
 def main():
     a = sys.argv[1:]
